@@ -455,7 +455,8 @@ def menus(tier):
             full.append((ev, shape, ("a/", "b/"), "fn frag(x)" if shape == "plain" else ""))
     mnemonic = [(ev, "plain", p, "") for ev in ("modified", "renamed_changed", "mode")
                 for p in (("i/", "w/"), ("c/", "w/"), ("o/", "w/"), ("c/", "i/"), ("1/", "2/"))] + \
-        [("empty", "plain", ("1/", "2/"), "")]
+        [("empty", "plain", ("1/", "2/"), "")] + \
+        [(ev, shape, ("", ""), "") for ev in ("modified", "mode", "added") for shape in ("prefixdir", "plain")]   # --no-prefix
     core = [(ev, "plain", ("a/", "b/"), "fn frag(x)") for ev in EVENTS]
     return full, mnemonic, core
 
